@@ -125,6 +125,22 @@ CHECKS["C12"] = dict(
          "instantiated (their models exist in other property files): implementation-side check only — partial.",
     design="§6 C12")
 
+CHECKS["C11"] = dict(
+    technique="Coq proof by induction over operation histories (wired graph => every evaluation returns the fresh value, no update raises) on a listener-graph model whose per-class handler table is regenerated from source by an ast translator; `wired` evaluated by vm_compute on graphs extracted from real objects; random-history correspondence against fresh rebuilds",
+    text="Theorems wired_sound / wired_sound_from_construction / eval_returns_fresh / update_state_independent (prop/C11.v, "
+         "closed under the global context): if the decidable predicate `wired g` holds then every finite history of "
+         "assignments (through plain, view, concatenated, transformed parameters), in-place changes followed by the "
+         "notification, bare notifications and evaluations runs without raising and every evaluation returns the value "
+         "recomputed from the leaves. The handler table (79 classes) is regenerated by translator T7 on every run; "
+         "`wired` is evaluated on the wiring extracted from 7 composite instances covering 44 classes (listeners by "
+         "introspection, read-dependencies by tracing cross-checked by perturbation); random histories on the real "
+         "objects are compared with freshly built copies (the property itself) and with the model (flags, re-executed "
+         "_calls, raises).",
+    note="Trusted: Coq kernel; T7 translator (cross-checked against the runtime MRO and by calling the real handlers); "
+         "dependency extraction by read-tracing (mitigated by perturbation); classes that cannot be instantiated from "
+         "JSON here (abstract empirical models, nn-based, variational objectives, HMC operator) are not covered.",
+    design="§6 C11")
+
 PENDING_REASON = "check not built yet in this session (build order in DESIGN.md §9); will be claimed once its theorem file and correspondence run clean"
 
 
